@@ -162,19 +162,22 @@ AfterLevel(f, d, ch) ==
     IF f.w = 0 THEN [f EXCEPT !.pc = "ser_call", !.idx = 0]                    \* return _dispatch_apply_serial(da)
     ELSE IF f.lvl < Len(ch) THEN [f EXCEPT !.pc = "redir_resv", !.lvl = @ + 1]
     ELSE [f EXCEPT !.pc = "push"]
-RedirResv(t) ==
+\* obs: the value of the word the RMW loop decided on (the word itself, except for a give-up in a trace)
+RedirResvOn(t, obs) ==
     /\ stk[t] # <<>> /\ Top(t).pc = "redir_resv"
     /\ LET f == Top(t) d == f.d ch == EffChain(da[d].q) w == ch[f.lvl]
-           r == IF Mut = "no_reserve" THEN [width |-> f.w, s |-> qs[w]] ELSE TryReserveApplyWidth(qs[w], Width(w), f.w)
+           r == IF Mut = "no_reserve" THEN [width |-> f.w, s |-> obs, rmw |-> FALSE] ELSE TryReserveApplyWidth(obs, Width(w), f.w)
            excess == f.w - r.width
            g == [f EXCEPT !.w = r.width, !.ex = excess] IN
-       /\ qs' = [qs EXCEPT ![w] = r.s]
+       /\ qs' = IF r.rmw THEN [qs EXCEPT ![w] = r.s] ELSE qs
        /\ uaf' = (uaf \/ Touch(d))
        /\ IF excess > 0 /\ f.lvl > 1
           THEN SetTop(t, [g EXCEPT !.pc = "redir_relq", !.k = 1]) /\ da' = da
           ELSE /\ SetTop(t, AfterLevel(g, d, ch))
                /\ da' = IF excess > 0 /\ r.width > 0 THEN [da EXCEPT ![d].thr = @ - excess, ![d].planned = @ - excess] ELSE da
     /\ UNCHANGED <<conts, env>>
+RedirResv(t) == /\ stk[t] # <<>> /\ Top(t).pc = "redir_resv"
+                /\ RedirResvOn(t, qs[EffChain(da[Top(t).d].q)[Top(t).lvl]])
 RedirRelq(t) ==
     /\ stk[t] # <<>> /\ Top(t).pc = "redir_relq"
     /\ LET f == Top(t) d == f.d ch == EffChain(da[d].q) w == ch[f.k] last == f.k + 1 >= f.lvl IN
@@ -201,23 +204,29 @@ PushConts(t) ==
        /\ SetTop(t, [f EXCEPT !.pc = "claim0"])
     /\ UNCHANGED <<qs, env>>
 \* a pool thread pops a helper continuation (_dispatch_apply_invoke / _dispatch_apply_redirect_invoke)
-Pickup(t, d) ==
+\* (`a`: trace validation only - the address/incarnation of the record, bound at the first access)
+PickupA(t, d, a) ==
     /\ t \in Workers /\ stk[t] = <<>> /\ conts[d] > 0
     /\ conts' = [conts EXCEPT ![d] = @ - 1]
+    /\ da' = [da EXCEPT ![d].a = a]
     /\ PushF(t, [Frame0 EXCEPT !.d = d, !.role = "helper", !.pc = "claim0"])
-    /\ UNCHANGED <<da, qs, uaf, env>>
+    /\ UNCHANGED <<qs, uaf, env>>
+Pickup(t, d) == PickupA(t, d, da[d].a)
 
 (* ------------------------------ _dispatch_apply_invoke2 ------------------------------ *)
 InRange(idx, iter) == IF Mut = "idx_le" THEN idx <= iter ELSE idx < iter
+\* out: the caller (DISPATCH_APPLY_INVOKE_WAIT) waits for the event, helpers go on (thread-local branch)
+OutPc(f) == IF f.role = "caller" /\ Mut # "no_wait" THEN "wait_dec" ELSE "thr_dec"
 \* idx = os_atomic_inc_orig2o(da, da_index, acquire); if (idx >= iter) goto out;
-Claim0(t) ==
+Claim0A(t, a) ==
     /\ stk[t] # <<>> /\ Top(t).pc = "claim0" /\ Mut # "nonatomic_claim"
     /\ LET f == Top(t) d == f.d idx == da[d].index IN
-       /\ da' = [da EXCEPT ![d].index = idx + 1]
+       /\ da' = [da EXCEPT ![d].index = idx + 1, ![d].a = a]
        \* in range: da->da_dc (the caller's stack) is dereferenced next
        /\ uaf' = (uaf \/ Touch(d) \/ (InRange(idx, da[d].iter) /\ ~da[d].dcLive))
-       /\ SetTop(t, [f EXCEPT !.idx = idx, !.pc = IF InRange(idx, da[d].iter) THEN "call" ELSE "out"])
+       /\ SetTop(t, [f EXCEPT !.idx = idx, !.pc = IF InRange(idx, da[d].iter) THEN "call" ELSE OutPc(f)])
     /\ UNCHANGED <<conts, qs, env>>
+Claim0(t) == stk[t] # <<>> /\ Claim0A(t, da[Top(t).d].a)
 \* spec mutant: the claim as a read followed by a write
 ClaimRd(t) ==
     /\ stk[t] # <<>> /\ Top(t).pc \in {"claim0", "claim"} /\ Mut = "nonatomic_claim"
@@ -227,7 +236,7 @@ ClaimWr(t) ==
     /\ stk[t] # <<>> /\ Top(t).pc \in {"claim0_wr", "claim_wr"}
     /\ LET f == Top(t) d == f.d IN
        /\ da' = [da EXCEPT ![d].index = f.idx + 1]
-       /\ SetTop(t, [f EXCEPT !.pc = IF InRange(f.idx, da[d].iter) THEN "call" ELSE IF f.pc = "claim0_wr" THEN "out" ELSE "sub"])
+       /\ SetTop(t, [f EXCEPT !.pc = IF InRange(f.idx, da[d].iter) THEN "call" ELSE IF f.pc = "claim0_wr" THEN OutPc(f) ELSE "sub"])
     /\ UNCHANGED <<conts, qs, uaf, env>>
 \* _dispatch_client_callout2(da_ctxt, idx, func)
 CallStart(t) ==
@@ -257,7 +266,7 @@ SubTodo(t) ==
     /\ LET f == Top(t) d == f.d nt == da[d].todo - f.done IN
        /\ da' = [da EXCEPT ![d].todo = nt, ![d].sub = @ + f.done]
        /\ uaf' = (uaf \/ Touch(d))
-       /\ SetTop(t, [f EXCEPT !.pc = IF IsLast(nt) THEN "signal" ELSE "out"])
+       /\ SetTop(t, [f EXCEPT !.pc = IF IsLast(nt) THEN "signal" ELSE OutPc(f)])
     /\ UNCHANGED <<conts, qs, env>>
 \* _dispatch_thread_event_signal: os_atomic_inc_orig(&dte->dte_value, release); 0 -> 1 needs no wake
 Signal(t) ==
@@ -265,19 +274,14 @@ Signal(t) ==
     /\ LET f == Top(t) d == f.d IN
        /\ da' = [da EXCEPT ![d].ev = @ + 1]
        /\ uaf' = (uaf \/ Touch(d))
-       /\ SetTop(t, [f EXCEPT !.pc = IF da[d].ev = 0 THEN "out" ELSE "wake"])
+       /\ SetTop(t, [f EXCEPT !.pc = IF da[d].ev = 0 THEN OutPc(f) ELSE "wake"])
     /\ UNCHANGED <<conts, qs, env>>
 \* _dispatch_thread_event_signal_slow: futex wake on the event word
 Wake(t) ==
     /\ stk[t] # <<>> /\ Top(t).pc = "wake"
     /\ uaf' = (uaf \/ Touch(Top(t).d))
-    /\ SetTop(t, [Top(t) EXCEPT !.pc = "out"])
+    /\ SetTop(t, [Top(t) EXCEPT !.pc = OutPc(Top(t))])
     /\ UNCHANGED <<da, conts, qs, env>>
-\* out: the caller (DISPATCH_APPLY_INVOKE_WAIT) waits for the event, helpers go on (thread-local branch)
-Out(t) ==
-    /\ stk[t] # <<>> /\ Top(t).pc = "out"
-    /\ SetTop(t, [Top(t) EXCEPT !.pc = IF @ = "out" /\ Top(t).role = "caller" /\ Mut # "no_wait" THEN "wait_dec" ELSE "thr_dec"])
-    /\ UNCHANGED <<da, conts, qs, uaf, env>>
 \* _dispatch_thread_event_wait: os_atomic_dec(&dte->dte_value, acquire) == 0 -> done, else the slow path
 WaitDec(t) ==
     /\ stk[t] # <<>> /\ Top(t).pc = "wait_dec"
@@ -308,7 +312,7 @@ Lib(t) == \/ SyncAcq(t) \/ SyncRel(t) \/ Ret(t) \/ SerStart(t) \/ SerEnd(t)
           \/ RedirResv(t) \/ RedirRelq(t) \/ FinalRelq(t) \/ PushConts(t)
           \/ \E d \in Das : Pickup(t, d)
           \/ Claim0(t) \/ ClaimRd(t) \/ ClaimWr(t) \/ CallStart(t) \/ CallEnd(t) \/ Claim(t)
-          \/ SubTodo(t) \/ Signal(t) \/ Wake(t) \/ Out(t) \/ WaitDec(t) \/ WaitSlow(t) \/ ThrDec(t)
+          \/ SubTodo(t) \/ Signal(t) \/ Wake(t) \/ WaitDec(t) \/ WaitSlow(t) \/ ThrDec(t)
 
 (* ------------------------------ model checking: program and environment ------------------------------ *)
 CONSTANTS Clients,     \* threads that call the top-level applies
@@ -358,8 +362,7 @@ ReturnAfterAll == \A d \in Called : da[d].returned => (da[d].fin = Range(d) /\ d
 \* on a serial queue, or a queue that targets one: sequential, in index order
 HasSerial(q) == \E i \in 1..Len(EffChain(q)) : Width(EffChain(q)[i]) = 1
 SerialOrder == \A d \in Called : HasSerial(da[d].q) =>
-    /\ Cardinality(da[d].running) <= 1
-    /\ \A i \in da[d].running \cup da[d].fin : \A j \in 0..(i - 1) : j \in da[d].fin
+    LET k == Cardinality(da[d].fin) IN da[d].fin = 0..(k - 1) /\ da[d].running \subseteq {k}
 \* the shared record (and the continuation on the caller's stack) is never touched after its release
 NoUseAfterFree == ~uaf
 \* thr_cnt ledger: the count equals the holders that can still touch the record
@@ -407,4 +410,5 @@ MCChain(q) == CASE q = "global" -> <<>> [] q = "serial" -> <<"ws">> [] q = "conc
                 [] q = "chain" -> <<"wc", "ws">> [] q = "cc" -> <<"wc3", "wc">> [] OTHER -> <<>>
 MCWidth(w) == CASE w = "ws" -> 1 [] w = "wc" -> 2 [] w = "wc3" -> 3 [] OTHER -> 1
 NoNest(d, i) == 0
+WorkerSym == Permutations(Workers)
 =============================================================================
